@@ -135,7 +135,7 @@ def _cov(spec, j):
   j.close('C09.cov.reciprocal-spectrum', worst, 0.0, 1.0,
           dict(det, eigenvalues_of_cov=w))
   res = penrose_residuals(C, M)
-  pos = w[w > w.max() * 1e-9] if w.max() > 0 else w
+  pos = w[w > w.max() * 1e-12] if w.max() > 0 else w
   cond = (pos.max() / pos.min()) if len(pos) else 1.0
   j.close('C09.cov.penrose', max(res.values()), 0.0, 1e-9 * max(cond, 1.0),
           dict(det, residuals=res, cond=cond))
